@@ -66,16 +66,6 @@ func (t *Dense) Filled(val ...interface{}) (interface{}, error) {
 		if tc.mask[0] {
 			tc.Set(0, fillval)
 		}
-	case tc.IsRowVec() || tc.IsColVec():
-		sliceList := t.FlatMaskedContiguous()
-
-		for i := range sliceList {
-			tt, err := tc.Slice(nil, sliceList[i])
-			if err != nil {
-				ts := tt.(*Dense)
-				ts.Memset(fillval)
-			}
-		}
 	default:
 		it := IteratorFromDense(tc)
 		for i, _, err := it.NextInvalid(); err == nil; i, _, err = it.NextInvalid() {
@@ -100,16 +90,6 @@ func (t *Dense) FilledInplace(val ...interface{}) (interface{}, error) {
 	case t.IsScalar():
 		if t.mask[0] {
 			t.Set(0, fillval)
-		}
-	case t.IsRowVec() || t.IsColVec():
-		sliceList := t.FlatMaskedContiguous()
-
-		for i := range sliceList {
-			tt, err := t.Slice(nil, sliceList[i])
-			if err != nil {
-				ts := tt.(*Dense)
-				ts.Memset(fillval)
-			}
 		}
 	default:
 		it := IteratorFromDense(t)
